@@ -284,6 +284,11 @@ class _RHandle:
     def __iter__(self):
         return iter(self._f)
 
+    @property
+    def size(self):
+        # (fsspec file objects have it; fastparquet reads footers of listed files through it)
+        return os.fstat(self._f.fileno()).st_size
+
     def __getattr__(self, name):
         return getattr(self._f, name)
 
